@@ -129,6 +129,24 @@ CHECKS = {
             {"name": "c07-contract", "bin": "cmdglyph", "build": "inpkg:cmd/glyph", "run": "^TestC07Contract$", "quick": 20000, "thorough": 800000},
         ],
     },
+    "C10": {
+        "level": "exploration",
+        "manifest": {
+            "technique": "property-based fuzzing (rapid, structured generators with a data-provider layer) of the lexer, expanded lexer, parser, VM and decompiler with a resource oracle inside the target, plus a round-trip check of compiler output against an independent bytecode decoder; native coverage-guided go fuzzing in the thorough tier",
+            "level_text": "Source: random bytes, token soup, byte-mutated valid programs and 22 recursive constructs nested 10..100000 deep (1000000 in the thorough tier) go through Lexer.Tokenize, ExpandedLexer.Tokenize and Parser.Parse. Bytecode: files assembled from a header, constant pool and opcode stream with hostile counts, lengths, operands and jump targets go through vm.Execute (step limit set) and Decompile/Format. Oracle: a result or a diagnostic; no panic; no process death (journalled); allocated bytes <= 16 MiB + 256 x input length and stack growth <= 64 MiB + 1 KiB x length; no goroutine outliving the call; still running after 60 s with the step limit set is a violation. Round trip: every compiled route must decode with an independent decoder to the same constants and instruction boundaries the decompiler reports, and the VM must load it with no loader-class error.",
+            "level_note": "The allocation constants are 10x the worst ratio seen on the valid corpus. The independent decoder's operand table was written from vm.go's read sites, not from the decompiler. Go's native fuzzer cannot be seeded, so its campaigns (thorough tier) only ever add saved crashers to the replay corpus.",
+        },
+        "rule": ("rapid-generated inputs: source (bytes / token soup / mutated valid programs / deep nesting), structured bytecode, and compiled programs for the round trip; "
+                 "non-trivial: source - at least 5 tokens were produced before the verdict; bytecode - the file passed the loader and executed; round trip - the program contains a jump; distinct = hash of the input"),
+        "assumptions": ["each worker process runs under RLIMIT_AS so a hostile allocation kills the worker and is attributed through the journal", "TotalAlloc/StackInuse deltas are read in a single-threaded worker"],
+        "units": [
+            {"name": "c10-source", "bin": "c10", "build": "harness:c10", "run": "^TestC10Source$", "quick": 12000, "thorough": 600000, "rlimit_as_gb": 8},
+            {"name": "c10-bytecode", "bin": "c10", "build": "harness:c10", "run": "^TestC10Bytecode$", "quick": 30000, "thorough": 3000000, "rlimit_as_gb": 8, "gomaxprocs": 4},
+            {"name": "c10-roundtrip", "bin": "c10", "build": "harness:c10", "run": "^TestC10RoundTrip$", "quick": 12000, "thorough": 800000},
+            {"name": "c10-fuzz-source", "bin": "c10fuzzsrc", "build": "harness:c10", "run": "^TestC10Source$", "fuzz": "FuzzSource", "reports_as": "c10-source", "tiers": ["thorough"], "fuzztime_thorough": 150, "rlimit_as_gb": 64},
+            {"name": "c10-fuzz-bytecode", "bin": "c10fuzzbc", "build": "harness:c10", "run": "^TestC10Bytecode$", "fuzz": "FuzzBytecode", "reports_as": "c10-bytecode", "tiers": ["thorough"], "fuzztime_thorough": 150, "rlimit_as_gb": 64},
+        ],
+    },
     "C11": {
         "level": "exploration",
         "manifest": {
